@@ -199,6 +199,34 @@ CLAIMS["C09"] = dict(
     technique="TLC-enumerated meshes x index subsets executed on real shapes; TLA+ relation over IndexOps definitions evaluated by TLC on every recorded step",
     design="DESIGN.md §3.4, §4 C09")
 
+CLAIMS["C10"] = dict(
+    category="model_checking",
+    text=("MeshOps!PartitionViol states the property on the projected partition state: the bag of shape triangles (up to rotation) equals "
+          "the bag of all partitions' true triangles (exactly-once cover), each vertex map lists exactly the used vertices once, mapped "
+          "triangles translate back through the vertex map, bone count per partition <= the game's limit, partition bones exist, bone slots "
+          "index the partition's bones, weights non-negative and summing to one or zero, dismember list aligned. TLC judges it after every "
+          "step of UpdateSkinPartitions / GetShapePartitions / SetShapePartitions (seeded reassignment incl. -1 and a new id) / "
+          "RemoveEmptyPartitions / DeletePartitions / save+reload / SetDefaultPartition on constructed ribbons with 1..100 bones around "
+          "the limits 18 and 80 in OB, FO3, SK, SSE, on seeded random weightings, and on every skinned sample shape; all "
+          "triangle-to-partition label lists up to 5 triangles are enumerated by TLC in C17's partassign family and judged with the same "
+          "relation."),
+    note=("Derived data is judged after the call documented to rebuild it and after reload. DeletePartitions is exercised after reassigning the "
+          "deleted partition's triangles (it leaves them unassigned by design). No transcription of the partition builder."),
+    technique="TLA+ partition invariants evaluated by TLC on recorded implementation states (trace validation) over constructed, random and sample meshes",
+    design="DESIGN.md §3.4, §4 C10")
+CLAIMS["C17"] = dict(
+    category="model_checking",
+    text=("TLC (MeshMC) enumerates every label list for 0..5 triangles over four segmentation infos (sub-segments, permuted ids, empty "
+          "segments, unassigned -1) and every assignment of up to 5 triangles to 1..3 dismember partitions. Each is applied to a real FO4 "
+          "shape (SetShapeSegments, GetShapeSegments, then vertex deletion, save, reload) resp. to FO3/SK/SSE shapes (SetShapePartitions, "
+          "UpdateSkinPartitions, GetShapePartitions). TLC judges MeshOps!SegmentationViol / PartAssignViol: the bag of (triangle, label) "
+          "pairs is preserved up to the documented renumbering, segment structure as given, the non-empty ranges tile the triangles "
+          "contiguously and in order, counts sum to the triangle count, triangles are a permutation; the same holds after vertex deletion "
+          "and after reload."),
+    note="Labels that name no segment of the given info are outside the quantifier. Offsets of empty ranges are not constrained.",
+    technique="TLC-enumerated label lists executed on real shapes; TLA+ relations evaluated by TLC on every recorded step",
+    design="DESIGN.md §3.4, §4 C17")
+
 NOT_YET = {}
 
 
